@@ -76,7 +76,7 @@ func (Prop) Assumptions() []string {
 	}
 }
 
-var zones = []string{"UTC", "Asia/Shanghai", "America/St_Johns", "America/Los_Angeles"}
+var zones = corpus.Zones
 
 func genScript(r *simrt.RNG, id int, siblings []string) string {
 	var b strings.Builder
@@ -141,6 +141,10 @@ func (Prop) Generate(seed uint64, tier string) *core.Plan {
 	r := simrt.NewRNG(seed)
 	w := Workload{Zone: zones[r.Intn(len(zones))]}
 	w.ClockNanos = 1709641845000000000 + int64(r.Intn(400))*86400e9 + int64(r.Intn(1e9))
+	if r.Intn(5) == 0 {
+		// the wall clock itself inside a repeated or skipped local hour
+		w.ClockNanos = corpus.EdgeInstants[r.Intn(len(corpus.EdgeInstants))]*1e9 + int64(r.Intn(1e9))
+	}
 	n := 1 + r.Intn(4)
 	names := make([]string, n)
 	for i := range names {
@@ -175,9 +179,21 @@ func (Prop) Generate(seed uint64, tier string) *core.Plan {
 	if r.Intn(25) == 0 {
 		w.Files = append(w.Files, File{Name: "zz.p", Kind: "dangling"})
 	}
+	if r.Intn(4) == 0 {
+		// scripts inside a sub-directory are not part of the workspace: same names as workspace
+		// scripts (would shadow them), or a name that exists only down there
+		sub := []string{"old", "a_backup", "zzz"}[r.Intn(3)]
+		w.Files = append(w.Files, File{Name: sub + "/" + names[r.Intn(n)], Kind: "file", Content: "set_measurement(\"from_subdir\")\nadd_key(subdir, 1)\n"})
+		if r.Intn(2) == 0 {
+			w.Files = append(w.Files, File{Name: sub + "/only_here.p", Kind: "file", Content: "add_key(subdir, 2)\n"})
+		}
+	}
 	w.Script = names[r.Intn(n)]
 	if r.Intn(30) == 0 {
 		w.Script = "nope.p"
+	}
+	if r.Intn(40) == 0 {
+		w.Script = "only_here.p"
 	}
 	w.Mode = []string{"workspace", "workspace", "single", "single_path"}[r.Intn(4)]
 	w.OutType = []string{"json", "lineprotocol"}[r.Intn(2)]
@@ -198,6 +214,9 @@ func (Prop) Generate(seed uint64, tier string) *core.Plan {
 		if r.Intn(30) == 0 {
 			w.InputData = "this is not line protocol\n"
 		}
+	}
+	if r.Intn(40) == 0 {
+		w.InputType = "csv" // not a supported input type: must be reported
 	}
 	switch r.Intn(28) {
 	case 0:
@@ -235,7 +254,7 @@ func reference(w *Workload, loc *time.Location) expectation {
 	switch w.Mode {
 	case "workspace":
 		for _, f := range w.Files {
-			if f.Kind == "dir" || !isScriptName(f.Name) {
+			if f.Kind == "dir" || !isScriptName(f.Name) || strings.Contains(f.Name, "/") {
 				continue
 			}
 			if f.Kind == "dangling" {
@@ -285,9 +304,11 @@ func reference(w *Workload, loc *time.Location) expectation {
 			return expectation{why: "fields of the first point cannot be decoded"}
 		}
 		fields, tags, measurement, tn = f, ip.Tags(), ip.Name(), ip.Time()
-	default:
+	case "text":
 		measurement = "default_name"
 		fields = map[string]any{"message": w.InputData}
+	default:
+		return expectation{why: "unsupported input type " + w.InputType}
 	}
 	pt := input.GetPoint()
 	defer input.PutPoint(pt)
@@ -362,6 +383,11 @@ func (Prop) Run(p *core.Plan) *core.Result {
 	defer os.RemoveAll(dir)
 	for _, f := range w.Files {
 		path := filepath.Join(ws, f.Name)
+		if strings.Contains(f.Name, "/") {
+			if err := os.MkdirAll(filepath.Dir(path), 0o755); err != nil {
+				return &core.Result{Infra: err.Error()}
+			}
+		}
 		switch f.Kind {
 		case "dir":
 			err = os.MkdirAll(path, 0o755)
